@@ -71,7 +71,7 @@ func Setters(typ uint8) []Setter {
 			sc("SetKeepAlive", func(m *model.Packet) bool { return m.KeepAlive == 0 }, func(p mq.ControlPacket, m *model.Packet) { c(p).SetKeepAlive(m.KeepAlive) }),
 			sc("SetClientID", func(m *model.Packet) bool { return m.ClientID == "" }, func(p mq.ControlPacket, m *model.Packet) { c(p).SetClientID(m.ClientID) }),
 			sc("SetUsername", func(m *model.Packet) bool { return m.Username == "" }, func(p mq.ControlPacket, m *model.Packet) { c(p).SetUsername(m.Username) }),
-			sc("SetPassword", func(m *model.Packet) bool { return len(m.Password) == 0 }, func(p mq.ControlPacket, m *model.Packet) { c(p).SetPassword(cp(m.Password)) }),
+			sc("SetPassword", func(m *model.Packet) bool { return len(m.Password) == 0 }, func(p mq.ControlPacket, m *model.Packet) { c(p).SetPassword(bin(m, m.Password)) }),
 			sc("SetWill", func(m *model.Packet) bool { return m.Will == nil }, func(p mq.ControlPacket, m *model.Packet) {
 				if m.Will != nil {
 					c(p).SetWill(BuildWill(m.Will))
@@ -85,7 +85,7 @@ func Setters(typ uint8) []Setter {
 			sc("SetRequestResponseInfo", func(m *model.Packet) bool { return !m.RequestResponseInfo }, func(p mq.ControlPacket, m *model.Packet) { c(p).SetRequestResponseInfo(m.RequestResponseInfo) }),
 			sc("SetRequestProblemInfo", func(m *model.Packet) bool { return !m.RequestProblemInfo }, func(p mq.ControlPacket, m *model.Packet) { c(p).SetRequestProblemInfo(m.RequestProblemInfo) }),
 			sc("SetAuthMethod", func(m *model.Packet) bool { return m.AuthMethod == "" }, func(p mq.ControlPacket, m *model.Packet) { c(p).SetAuthMethod(m.AuthMethod) }),
-			sc("SetAuthData", func(m *model.Packet) bool { return len(m.AuthData) == 0 }, func(p mq.ControlPacket, m *model.Packet) { c(p).SetAuthData(cp(m.AuthData)) }),
+			sc("SetAuthData", func(m *model.Packet) bool { return len(m.AuthData) == 0 }, func(p mq.ControlPacket, m *model.Packet) { c(p).SetAuthData(bin(m, m.AuthData)) }),
 			userProps(func(p mq.ControlPacket) *mq.UserProperties { return &c(p).UserProperties }),
 		}
 	case model.CONNACK:
@@ -108,7 +108,7 @@ func Setters(typ uint8) []Setter {
 			sc("SetResponseInformation", func(m *model.Packet) bool { return m.ResponseInformation == "" }, func(p mq.ControlPacket, m *model.Packet) { c(p).SetResponseInformation(m.ResponseInformation) }),
 			sc("SetServerReference", func(m *model.Packet) bool { return m.ServerReference == "" }, func(p mq.ControlPacket, m *model.Packet) { c(p).SetServerReference(m.ServerReference) }),
 			sc("SetAuthMethod", func(m *model.Packet) bool { return m.AuthMethod == "" }, func(p mq.ControlPacket, m *model.Packet) { c(p).SetAuthMethod(m.AuthMethod) }),
-			sc("SetAuthData", func(m *model.Packet) bool { return len(m.AuthData) == 0 }, func(p mq.ControlPacket, m *model.Packet) { c(p).SetAuthData(cp(m.AuthData)) }),
+			sc("SetAuthData", func(m *model.Packet) bool { return len(m.AuthData) == 0 }, func(p mq.ControlPacket, m *model.Packet) { c(p).SetAuthData(bin(m, m.AuthData)) }),
 			userProps(func(p mq.ControlPacket) *mq.UserProperties { return &c(p).UserProperties }),
 		}
 	case model.PUBLISH:
@@ -123,9 +123,9 @@ func Setters(typ uint8) []Setter {
 			sc("SetMessageExpiryInterval", func(m *model.Packet) bool { return m.MessageExpiry == 0 }, func(p mq.ControlPacket, m *model.Packet) { c(p).SetMessageExpiryInterval(m.MessageExpiry) }),
 			sc("SetTopicAlias", func(m *model.Packet) bool { return m.TopicAlias == 0 }, func(p mq.ControlPacket, m *model.Packet) { c(p).SetTopicAlias(m.TopicAlias) }),
 			sc("SetResponseTopic", func(m *model.Packet) bool { return m.ResponseTopic == "" }, func(p mq.ControlPacket, m *model.Packet) { c(p).SetResponseTopic(m.ResponseTopic) }),
-			sc("SetCorrelationData", func(m *model.Packet) bool { return len(m.CorrelationData) == 0 }, func(p mq.ControlPacket, m *model.Packet) { c(p).SetCorrelationData(cp(m.CorrelationData)) }),
+			sc("SetCorrelationData", func(m *model.Packet) bool { return len(m.CorrelationData) == 0 }, func(p mq.ControlPacket, m *model.Packet) { c(p).SetCorrelationData(bin(m, m.CorrelationData)) }),
 			sc("SetContentType", func(m *model.Packet) bool { return m.ContentType == "" }, func(p mq.ControlPacket, m *model.Packet) { c(p).SetContentType(m.ContentType) }),
-			sc("SetPayload", func(m *model.Packet) bool { return len(m.Payload) == 0 }, func(p mq.ControlPacket, m *model.Packet) { c(p).SetPayload(cp(m.Payload)) }),
+			sc("SetPayload", func(m *model.Packet) bool { return len(m.Payload) == 0 }, func(p mq.ControlPacket, m *model.Packet) { c(p).SetPayload(bin(m, m.Payload)) }),
 			{
 				Name: "AddSubscriptionID", IsList: true,
 				Len:   func(m *model.Packet) int { return len(m.SubIDs) },
@@ -240,7 +240,7 @@ func Setters(typ uint8) []Setter {
 			sc("SetReasonCode", func(m *model.Packet) bool { return m.ReasonCode == 0 }, func(p mq.ControlPacket, m *model.Packet) { c(p).SetReasonCode(mq.ReasonCode(m.ReasonCode)) }),
 			sc("SetReasonString", func(m *model.Packet) bool { return m.ReasonString == "" }, func(p mq.ControlPacket, m *model.Packet) { c(p).SetReasonString(m.ReasonString) }),
 			sc("SetAuthMethod", func(m *model.Packet) bool { return m.AuthMethod == "" }, func(p mq.ControlPacket, m *model.Packet) { c(p).SetAuthMethod(m.AuthMethod) }),
-			sc("SetAuthData", func(m *model.Packet) bool { return len(m.AuthData) == 0 }, func(p mq.ControlPacket, m *model.Packet) { c(p).SetAuthData(cp(m.AuthData)) }),
+			sc("SetAuthData", func(m *model.Packet) bool { return len(m.AuthData) == 0 }, func(p mq.ControlPacket, m *model.Packet) { c(p).SetAuthData(bin(m, m.AuthData)) }),
 			userProps(func(p mq.ControlPacket) *mq.UserProperties { return &c(p).UserProperties }),
 		}
 	}
@@ -356,4 +356,16 @@ func Probe(p mq.ControlPacket, kind int) {
 // BuildDefault uses the canonical order and skips zero-valued scalars.
 func BuildDefault(m *model.Packet) mq.ControlPacket {
 	return Build(m, Plan(m, nil, nil))
+}
+
+// bin copies a binary value for a setter call; an empty value is nil or, when
+// the model says so, an empty non-nil slice (both are legal arguments).
+func bin(m *model.Packet, b []byte) []byte {
+	if len(b) == 0 {
+		if m.XEmptyNonNil {
+			return []byte{}
+		}
+		return nil
+	}
+	return append([]byte{}, b...)
 }
